@@ -311,9 +311,11 @@ class Report:
             'wall_s': round(time.time() - self.t0, 2), 'violations': len(self.violations),
             'known_findings_hit': self.known, 'notes': self.notes,
         }
-        os.makedirs(os.path.join(VERIF, 'evidence'), exist_ok=True)
-        with open(os.path.join(VERIF, 'evidence', '%s.json' % self.pid), 'w') as f:
-            json.dump(ev, f, indent=1, sort_keys=True, default=str)
+        # mutation testing (VERIF_REPO = a scratch worktree, or VERIF_NO_EVIDENCE) must not overwrite the evidence of /repo
+        if not os.environ.get('VERIF_NO_EVIDENCE') and os.path.realpath(REPO) == '/repo':
+            os.makedirs(os.path.join(VERIF, 'evidence'), exist_ok=True)
+            with open(os.path.join(VERIF, 'evidence', '%s.json' % self.pid), 'w') as f:
+                json.dump(ev, f, indent=1, sort_keys=True, default=str)
         for k in self.known:
             print('KNOWN-FINDING: property=%s %s' % (self.pid, k))
         for path, suffix in self.violations:
